@@ -676,7 +676,17 @@ def field_args_at(models, wraps, optional, qual: str = "FieldCompiler.betterprot
     from ..absint import Interp
     from ..sym import A, N, show
     fn = models.func(qual)
-    paths = [p for p in Interp(models, bindings={A(N("self"), "field_wraps"): wraps, A(N("self"), "optional"): optional}, fork_ifexp=True, replay_logs=True).run(fn) if p.outcome == "return"]
+    binds = {A(N("self"), "field_wraps"): wraps, A(N("self"), "optional"): optional}
+    # other properties of the same class that are constants there (`oneof_group` is None for a plain field)
+    cls_name = qual.rsplit(".", 1)[0]
+    for n_ in ast.walk(fn):
+        if isinstance(n_, ast.Attribute) and isinstance(n_.value, ast.Name) and n_.value.id == "self" and A(N("self"), n_.attr) not in binds and models.has(f"{cls_name}.{n_.attr}"):
+            pf = models.defs[f"{cls_name}.{n_.attr}"][0]
+            if isinstance(pf, ast.FunctionDef) and any(ast.unparse(d) == "property" for d in pf.decorator_list):
+                body = [b_ for b_ in pf.body if not (isinstance(b_, ast.Expr) and isinstance(b_.value, ast.Constant))]
+                if len(body) == 1 and isinstance(body[0], ast.Return) and isinstance(body[0].value, ast.Constant):
+                    binds[A(N("self"), n_.attr)] = body[0].value.value
+    paths = [p for p in Interp(models, bindings=binds, fork_ifexp=True, replay_logs=True).run(fn) if p.outcome == "return"]
     atoms = sorted({show(k) for p in paths for k in p.valuation})
     if len(paths) != 1 or paths[0].value is None:
         return None, atoms
